@@ -28,6 +28,8 @@ class IPSWriter(Writer):
     def write_block_header(self, block: bytes, block_address: int) -> None:
         if self._copier_header:
             block_address += 0x200
+        if block_address == 0x454F46:
+            raise ValueError("An IPS record cannot start at offset 0x454F46, readers take it for the EOF marker.")
         self.file.write(struct.pack(">BH", block_address >> 16, block_address & 0xFFFF))
         self.file.write(struct.pack(">H", len(block)))
 
@@ -35,6 +37,10 @@ class IPSWriter(Writer):
         k = 0
         while block[k:]:
             slice_size = min(0xFFFF, len(block) - k)
+            next_record = block_address + slice_size + (0x200 if self._copier_header else 0)
+            if next_record == 0x454F46 and k + slice_size < len(block):
+                # keep the next record from starting on the offset that reads as the EOF marker.
+                slice_size -= 1
             block_slice = block[k : k + slice_size]
 
             self.write_block_header(block_slice, block_address)
